@@ -179,6 +179,14 @@ impl BModel {
                     };
                     ev(&sh, json!({"ev": "sd", "m": self.name, "n": n, "replies": replies}));
                 }
+                "panic" => {
+                    ev(&sh, json!({"ev": "ss", "m": self.name, "n": self.n, "op": "panic", "port": 0, "prog": 0}));
+                    {
+                        let mut busy = sh.busy.lock().unwrap();
+                        busy.insert(self.name.clone(), false);
+                    }
+                    std::panic::panic_any(format!("boom:{}", self.name));
+                }
                 other => panic!("harness: unknown op {}", other),
             }
         }
@@ -376,7 +384,13 @@ fn exec_result(r: Result<(), ExecutionError>) -> Value {
         Err(ExecutionError::MessageLoss(n)) => res("msgloss", "", n as u64, json!([])),
         Err(ExecutionError::NoRecipient { model }) => res("norecipient", &model.unwrap_or_default(), 0, json!([])),
         Err(ExecutionError::Panic { model, payload }) => {
-            res("panic", &format!("{}|{}", model, payload_string(&payload)), 0, json!([]))
+            // the payload must be the one thrown by the model named in the report
+            let s = payload_string(&payload);
+            if s == format!("boom:{}", model) {
+                res("panic", &model, 0, json!([]))
+            } else {
+                res("panic", &format!("{}|payload={}", model, s), 0, json!([]))
+            }
         }
         Err(ExecutionError::Timeout) => res("timeout", "", 0, json!([])),
         Err(ExecutionError::OutOfSync(_)) => res("outofsync", "", 0, json!([])),
@@ -656,6 +670,9 @@ fn one_run(inp: &Input, id: u64, prefix: &[usize], seed: u64, out: &mut dyn Writ
                 Ok(v) => v,
                 Err(p) => res("PANICKED", &payload_string(&p), 0, json!([])),
             };
+            if inp.threads > 1 && resv["r"] == "panic" {
+                std::thread::sleep(Duration::from_millis(30));
+            }
             let sk = read_sinks(&mut sinks, &mut acc);
             ev(&sh, json!({"ev": "ret", "res": resv, "sinks": sk, "reply": reply}));
             flush(&sh, out);
